@@ -9,7 +9,7 @@ ids = [p["id"] for p in props]
 SVM = "trusts the harness: native mini-SVM (loader serialisation, CPI privilege and post-instruction account rules re-implemented from the runtime's rules), vendored host shims of pinocchio/solana-invoke/solana-cpi/anchor-lang/solana-msg (host branches only, diff checked at set-up), real spl-token/token-2022 processors; native build of the same sources (overflow-checks off), not the SBF binary; histories are sampled"
 CHECKS = {
  "C01": ("runtime monitoring of the real instruction path: exact claim-vs-vault invariant after every instruction + differential drain on cloned state + trader-segment conservation monitor",
-         "Seeded hostile histories (liquidity changes, swaps in both modes/directions with and without limits, fee updates, collections, setters, clock) are executed through the program's real entrypoint in a native mini-SVM. After every successful instruction an exact big-integer oracle compares each vault with the sum of all claims decoded from the bank; at checkpoints the whole pool is drained on a clone in random order and every step must succeed; consecutive swaps of one signer never net a gain. Exploration: held on the executions observed.",
+         "Seeded hostile histories (liquidity changes incl. reposition, swaps in both modes/directions with and without limits and with amounts that end exactly on a tick, two-hops, fee updates, collections, setters, lifecycle operations, clock) are executed through the program's real entrypoint in a native mini-SVM. After every successful instruction an exact big-integer oracle compares each vault with the sum of all claims decoded from the bank; at checkpoints the whole pool is drained on a clone in random order and every step must succeed; consecutive swaps of one signer never net a gain. Exploration: held on the executions observed.",
          SVM, "DESIGN.md#c01"),
  "C02": ("runtime oracle on compute_swap: exact-rational reference monitor over randomized hostile inputs (thorough: 24 000 of them additionally under Miri)",
          "Every successful result of the real compute_swap on millions of generated inputs (all liquidity bit-lengths, boundary prices, segment-cost +-1 amounts) is compared with an exact big-integer model of the curve, the safe-side price rounding, budget consumption and the fee formula. Exploration: a sample of an astronomically large input space, biased to the boundaries the code branches on.",
@@ -36,7 +36,7 @@ CHECKS = {
          "The forward map is enumerated over all 887273 ticks (monotone, endpoints, per-step ratio within 2^-32 by exact integer inequality); the inverse is checked at every tick boundary, one unit either side, and on a dense random interior sample against a binary search in the forward table.",
          "interior prices are sampled; native build of the same sources", "DESIGN.md#c09"),
  "C10": ("trace monitor against a reference traversal of the decoded tick set + differential execution of the same swap under different packagings on cloned state",
-         "For every successful swap the initialized ticks crossed (hook trace) must equal the initialized ticks of the decoded pre-state between start and end price, in order, once, with matching liquidity; every second swap is re-executed on clones under permuted / duplicated / supplemental / only-named / transcoded / non-PDA / foreign-pool packagings: same set of arrays => byte-identical outcome, reduced set => error or a success that still crosses exactly its path, foreign array => error.",
+         "For every successful swap the initialized ticks crossed (hook trace) must equal the initialized ticks of the decoded pre-state between start and end price, in order, once, with matching liquidity; every second swap is re-executed on clones under permuted / duplicated / supplemental / read-only-supplemental / only-named / transcoded / non-PDA / foreign-pool packagings: same set of arrays => byte-identical outcome, reduced set or read-only arrays => error or a success that still crosses exactly its path, foreign array (also hidden among supplemental arrays) => error.",
          SVM, "DESIGN.md#c10"),
  "C11": ("shadow-ledger monitor over intervals between reward-updating instructions, exact arithmetic; funding-threshold probes on cloned state",
          "Emissions x elapsed time are distributed by an exact ledger over the Position accounts in range during each interval; credited rewards must never exceed the ledger and fall short only by the derived bound; growth never moves without liquidity/initialisation/time; earlier timestamps fail; collection pays min(owed, vault); emission changes need a day of funding (probed at need and need-1).",
@@ -45,16 +45,16 @@ CHECKS = {
          "On reachable bytes of (whirlpool, position, tick arrays) with hostile liquidity deltas and timestamps both implementations must return the same result or error number, the same update structs, token amounts and resulting bytes of all four accounts; every increase/decrease(_v2) of the histories is additionally executed through the Anchor handlers on a clone and must end in an identical bank with identical event bytes; range validation of the two position implementations is compared as well.",
          SVM + "; the Anchor handlers are reached through the generated try_accounts + public handler + exit (the #[program] bodies of these instructions are unreachable!())", "DESIGN.md#c12"),
  "C13": ("exhaustive transition enumeration over a boundary slot set + random sequences, four implementations against an abstract model and a harness-owned decoder; sanitizer lanes: a slice of the same enumeration under Miri with full Stacked Borrows (quick: 16 of 64 parts, thorough: all), instruction-level smoke histories under Miri and the whole workload under an AddressSanitizer build (thorough)",
-         "Every subset of the boundary slots {0,1,62,63,64,65,86,87} x every single update x the full query set is executed on Anchor fixed, Anchor dynamic, Pinocchio fixed and Pinocchio dynamic tick arrays and compared with an abstract slot map; the dynamic encoding is re-decoded by the harness after every update (bitmap, record sizes, used length, Anchor bytes == Pinocchio bytes).",
+         "Every subset of the boundary slots {0,1,62,63,64,65,86,87} x every single update x the full query set is executed on Anchor fixed, Anchor dynamic, Pinocchio fixed and Pinocchio dynamic tick arrays and compared with an abstract slot map; the dynamic encoding is re-decoded by the harness after every update (bitmap, record sizes, used length, Anchor bytes == Pinocchio bytes); random sequences include fill-and-drain sweeps (array filled completely, then emptied); in situ, after every instruction of a liquidity-heavy history workload (re-initialisation attempts included) every tick-array account touched must be well formed, exactly 9988 / 148+112n bytes long, bitmap == tags, rent exempt.",
          "buffers sized like on-chain accounts plus realloc padding; bytes beyond the used length unconstrained; random part sampled", "DESIGN.md#c13"),
  "C14": ("trace monitor: independent re-statement of the adaptive-fee schedule applied to per-step hook records and oracle state before/after",
-         "For every successful swap leg on adaptive-fee pools the expected reference (filter/decay/reset), the per-tick-group rate of every step, rate bounds, accumulator cap, stored accumulator, major-swap timestamp, control-factor-zero equivalence and the trade-enable gate are recomputed independently and compared.",
+         "For every successful swap leg on adaptive-fee pools the expected reference (filter/decay/reset), the per-tick-group rate of every step, rate bounds, accumulator cap, stored accumulator, major-swap timestamp, control-factor-zero equivalence and the trade-enable gate are recomputed independently and compared; no instruction may change an oracle's trade-enable time or pool after creation (constants are updated during the histories).",
          SVM + "; major-swap threshold judged with a 2e-9 band on log price", "DESIGN.md#c14"),
  "C15": ("fault enumeration at the transaction boundary: every bound account slot x every same-kind account of another pool/mint/position/index/program, executed on cloned state",
-         "For every fund-moving instruction a golden invocation succeeds; every slot the property binds to the named pool is then replaced by every other account of the same kind found in a world of six pools over shared and disjoint mints, two configs and reward vaults holding pool mints (plus pair substitutions position+token account - funded and empty foreign positions - and two-hop pool duplication); each substitution must fail.",
+         "For every fund-moving instruction a golden invocation succeeds; every slot the property binds to the named pool is then replaced by every other account of the same kind found in a world of six pools over shared and disjoint mints, two configs and reward vaults holding pool mints (plus pair substitutions position+token account - funded and empty foreign positions - and two-hop pool duplication; supplemental tick arrays of swap_v2; byte-identical twins of token accounts / mints owned by look-alike non-token programs; attacker programs with look-alike ids whose CPI would succeed); each substitution must fail.",
          SVM + "; bound/free classification of slots written in the harness from the property statement", "DESIGN.md#c15"),
  "C16": ("exact oracle against the token program's own fee function on both implementations (function level, incl. a hostile-TLV differential against spl-token-2022's reader, also executed under Miri with full Stacked Borrows and under ASan) + balance/withheld-amount/event monitor on Token-2022 fee pools (instruction level)",
-         "Anchor and Pinocchio fee-exclusion/inclusion functions are compared with spl-token-2022's TransferFee::calculate_fee over all fee configurations, epochs around the fee switch and hostile amounts (sum, minimality, round trip, equality of implementations); in histories on fee-bearing pools the vault must receive at least the curve input and pay exactly the curve output, requests must be minimal and within maxima, minima apply to what the owner receives, swap thresholds are probed on clones against what the trader actually receives / pays, and Traded / Liquidity events must equal the amounts moved and withheld.",
+         "Anchor and Pinocchio fee-exclusion/inclusion functions are compared with spl-token-2022's TransferFee::calculate_fee over all fee configurations, epochs around the fee switch and hostile amounts (sum, minimality, round trip, equality of implementations); in histories on fee-bearing pools the vault must receive at least the curve input and pay exactly the curve output, requests must be minimal and within maxima, minima apply to what the owner receives, swap thresholds are probed on clones against what the trader actually receives / pays, and Traded / Liquidity events must equal the amounts moved and withheld; two_hop_swap_v2 and reposition_liquidity_v2 over fee-bearing mints are judged the same way (withheld amounts, minimal requests, thresholds against what the user receives / pays, LiquidityRepositioned event).",
          SVM + "; spl-token-2022 8.0.1 is the ground truth for withheld fees", "DESIGN.md#c16"),
  "C17": ("differential execution on cloned state: two-hop vs its two single swaps; negative generation (same pool, non-chaining legs); threshold probes",
          "Every successful two-hop of the histories is replayed on a clone as two single swaps with the intermediate amount measured at the vaults: pools, tick arrays, oracles, vaults byte-identical, trader deltas identical, intermediate balance untouched; hostile two-hops must fail; outer thresholds probed at x-1/x/x+1.",
@@ -63,10 +63,10 @@ CHECKS = {
          "Open (all flavours, derived bounds), close, reset, reposition, lock, transfer-locked and bundle instructions are generated with valid and invalid parameters and judged by rules taken from the statement (token supply/authority, range validity and derived-bound resolution by an independent search, emptiness for close/reset, lock restrictions, bitmap == open bundled positions found in the bank).",
          SVM + "; Metaplex CPI of *_with_metadata is a recording stub", "DESIGN.md#c18"),
  "C19": ("invariant sweep over all decoded settings/pool/oracle accounts after every instruction of histories and a setter storm + enumerated mint-admission lattice on cloned state",
-         "Bounds are re-stated independently and checked on every Config, FeeTier, AdaptiveFeeTier, Whirlpool and Oracle account in the bank after each successful instruction, under a storm of initialize/set instructions with hostile arguments; every subset (size <= 2 quick / 3 thorough) of 24 Token-2022 extension type numbers x freeze authority x five badge states is written with the harness's TLV writer and run through all three creation paths with the mint in either position; everything the statement's allow-list forbids must fail.",
+         "Bounds are re-stated independently and checked on every Config, FeeTier, AdaptiveFeeTier, Whirlpool and Oracle account in the bank after each successful instruction, under a storm of initialize/set instructions with hostile arguments; every subset (size <= 2 quick / 3 thorough) of 24 Token-2022 extension type numbers x freeze authority x five badge states is written with the harness's TLV writer and run through all three creation paths with the mint in either position; everything the statement's allow-list forbids must fail, also for a pool's own mint offered as reward after its badge was removed; accumulator maxima are drawn around 2^32 / group size.",
          SVM + "; spl-token-2022's TLV reader defines which extensions a (possibly truncated) mint carries; only rejection is judged", "DESIGN.md#c19"),
  "C20": ("differential execution: the Rust core SDK linked next to the program - exhaustive tick table, hostile function inputs, and SDK quotes against swaps actually executed in hostile histories",
-         "All 887273 ticks and every boundary price are compared; amount / next-price / liquidity-amount functions are compared on hostile inputs (values where the program succeeds, an SDK error where the program rejects as overflowing); every swap_v2 of the history workloads (static, adaptive incl. hour-long high-frequency bursts, transfer-fee pools) is re-judged without price limit on a clone and compared with swap_quote_by_input/output_token built from the decoded pre-state: amounts, total fee, failure behaviour and slippage side; every successful increase/decrease of the same histories is compared with increase/decrease_liquidity_quote (estimates equal what the owner paid / received, transfer fees included).",
+         "All 887273 ticks and every boundary price are compared; amount / next-price / liquidity-amount functions are compared on hostile inputs (values where the program succeeds, an SDK error where the program rejects as overflowing); every swap_v2 of the history workloads (static, adaptive incl. hour-long high-frequency bursts, transfer-fee pools) is re-judged without price limit on a clone and compared with swap_quote_by_input/output_token built from the decoded pre-state: amounts, total fee, failure behaviour and slippage side; every successful increase/decrease of the same histories is compared with increase/decrease_liquidity_quote (estimates equal what the owner paid / received, transfer fees included); the SDK's transfer-fee apply / reverse-apply are compared with the program's conversions on a real mint account up to u64::MAX.",
          SVM + "; `ethnum` is not available offline - the SDK is compiled against a stand-in U256 with the same std-integer semantics; the TypeScript/WASM packaging is out of reach", "DESIGN.md#c20"),
 }
 NOT_YET = "check under construction in this session (designed in DESIGN.md section 5); not claimed until it runs silent on the unchanged tree"
